@@ -688,3 +688,92 @@ def reach_boolconst(body, starts):
         for s_ in body.succ[b]:
             work.append((s_, frozenset(facts.items())))
     return out
+
+
+# ---------------------------------------------------------------------------
+# may-reachability under an assumption (necessary-condition rules)
+# ---------------------------------------------------------------------------
+def may_reach(body, targets, decide, start=0):
+    """Is some block of `targets` reachable from `start` when `decide(bb, term)` restricts the successors of the
+    switches it understands (it returns the list of allowed successor blocks, or None for 'all')?  Everything the
+    decider does not understand stays non-deterministic, so the answer over-approximates: False is a proof that the
+    targets cannot be reached under the assumption."""
+    targets = set(targets)
+    seen = set()
+    work = [start]
+    while work:
+        b = work.pop()
+        if b in seen:
+            continue
+        seen.add(b)
+        if b in targets:
+            return True
+        t = body.term(b)
+        allowed = decide(b, t) if t["k"] == "switch" else None
+        for s in body.succs(b):
+            if allowed is None or s in allowed:
+                work.append(s)
+    return False
+
+
+def option_assumption(body, assume):
+    """decider for may_reach: `assume` maps the block of a call that produces an Option to the variant index it is
+    assumed to have (0 = None, 1 = Some).  Understands `switch discr(p)` and `switch is_some(&p)/is_none(&p)` where p
+    is a copy / reference / tuple field of that call's result."""
+
+    def src(pl_or_op):
+        o = origin(body, pl_or_op, carriers={})
+        if o[0] == "call" and o[1] in assume:
+            return assume[o[1]]
+        return None
+
+    def decide(bb, t):
+        sd = switch_discr_place(body, bb)
+        if sd is not None:
+            v = src(sd[0])
+            if v is None:
+                return None
+            listed = dict((val, tgt) for val, tgt in t["vals"])
+            return [listed[v]] if v in listed else [t["otherwise"]]
+        o = origin(body, t["op"], carriers={})
+        neg = False
+        if o[0] == "rv" and o[1].get("k") == "unop" and o[1].get("op") == "Not":
+            neg = True
+            o = origin(body, o[1]["a"], carriers={})
+        if o[0] == "call" and "fn" in o[2]:
+            last = Callee(o[2]["fn"]).path
+            if last in ("std::option::Option::<T>::is_some", "std::option::Option::<T>::is_none") and o[2]["args"]:
+                v = src(o[2]["args"][0])
+                if v is None:
+                    return None
+                truth = (v == 1) == last.endswith("is_some")
+                if neg:
+                    truth = not truth
+                tt, ft = switch_targets_bool(t)
+                return [tt] if truth else [ft]
+        return None
+
+    return decide
+
+
+def equality_assumption(body, is_subject):
+    """decider for may_reach: every comparison `a OP b` for which is_subject(a_operand, b_operand) holds is evaluated
+    at a == b (Ge/Le/Eq true; Gt/Lt/Ne false)."""
+
+    def decide(bb, t):
+        o = origin(body, t["op"], carriers={})
+        neg = False
+        if o[0] == "rv" and o[1].get("k") == "unop" and o[1].get("op") == "Not":
+            neg = True
+            o = origin(body, o[1]["a"], carriers={})
+        if o[0] == "rv" and o[1].get("k") == "binop" and o[1].get("op") in ("Ge", "Le", "Eq", "Gt", "Lt", "Ne"):
+            if not is_subject(o[1]["a"], o[1]["b"]):
+                return None
+            truth = o[1]["op"] in ("Ge", "Le", "Eq")
+            if neg:
+                truth = not truth
+            tt, ft = switch_targets_bool(t)
+            return [tt] if truth else [ft]
+        return None
+
+    return decide
